@@ -97,7 +97,9 @@ func c17CmpGrid() []c17Val {
 	for _, t := range []string{"00:00:00", "12:00:00", "12:00:00.5", "23:59:59"} {
 		out = append(out, c17Val{t, "time"})
 	}
-	for _, t := range []string{"12:00:00+00", "13:00:00+01", "12:00:00+01", "06:30:00-05:30", "12:00:00-04", "23:59:59+14"} {
+	for _, t := range []string{"12:00:00+00", "13:00:00+01", "12:00:00+01", "06:30:00-05:30", "12:00:00-04", "23:59:59+14",
+		// the instant of 12:00:00 under the context offsets +05:30 / -08:00, spelled with offsets between 0 and the context's, at it, and beyond
+		"07:30:00+01", "06:30:00+00", "12:00:00+05:30", "13:30:00+07", "17:00:00-03", "20:00:00+00", "12:00:00-08", "10:00:00-10"} {
 		out = append(out, c17Val{t, "time_tz"})
 	}
 	for _, t := range []string{"2015-08-02T00:00:00", "2015-08-01T20:00:00", "2015-08-02T04:00:00", "2015-08-02T12:00:00", "2015-11-01T01:30:00", "2015-08-01T18:30:00", "2015-08-02T05:30:00", "2015-10-04T00:00:00"} {
@@ -236,7 +238,7 @@ func c17Triple(c Case) *Failure {
 }
 
 func runC17(r *Run) {
-	r.Rule("a grid of datetime strings (5 kinds x 9 dates incl. year/day boundaries and the DST transition days of New York and Sydney/Lord Howe x 7 times x 8-15 fractions of 0..9 digits incl. rounding carries x 7-12 offset spellings -12..+14 incl. half hours, Z, +hh and +hh:mm x T/space, plus 28 unrecognised forms) x six methods x precisions 0..7 and absent x {WithTZ, not} x context zones {none, UTC, +05:30, -08:00, America/New_York, Australia/Lord_Howe, America/Chicago, Asia/Shanghai, Australia/Sydney} against the reference civil-time model (recognised forms, resulting type, cast matrix with the tz-required error, rounding to min(p,6)); all ordered pairs of a 37-value comparison grid (incl. the Sydney/Lord Howe transition day 2015-10-04) x 6 operators x zones: reference order, antisymmetry, comparison = comparison after explicit casts to the common type, time vs date/timestamp unknown; all triples for transitivity; non-trivial = reference yields items or an error")
+	r.Rule("a grid of datetime strings (5 kinds x 9 dates incl. year/day boundaries and the DST transition days of New York and Sydney/Lord Howe x 7 times x 8-15 fractions of 0..9 digits incl. rounding carries x 7-12 offset spellings -12..+14 incl. half hours, Z, +hh and +hh:mm x T/space, plus 28 unrecognised forms) x six methods x precisions 0..7 and absent x {WithTZ, not} x context zones {none, UTC, +05:30, -08:00, America/New_York, Australia/Lord_Howe, America/Chicago, Asia/Shanghai, Australia/Sydney} against the reference civil-time model (recognised forms, resulting type, cast matrix with the tz-required error, rounding to min(p,6)); all ordered pairs of a 45-value comparison grid (incl. the Sydney/Lord Howe transition day 2015-10-04) x 6 operators x zones: reference order, antisymmetry, comparison = comparison after explicit casts to the common type, time vs date/timestamp unknown; all triples for transitivity; non-trivial = reference yields items or an error")
 	strs := c17Strings(r.Thorough())
 	paths := c17Paths()
 	r.Bound("datetime_strings", len(strs))
